@@ -222,7 +222,9 @@ def check_property(pid, tier, seed):
             args = list(cex['args']) + [cex['kwargs'][n] for n in H.arg_names()[len(cex['args']):]]
             nr = native(module, name, split, args, timeout=meta.get('replay_timeout', 60))
             replayed += 1
-            fails = (nr.get('ok') is False) or (nr.get('exc') is not None and nr.get('ok') is None and not nr.get('hang') and not nr.get('crash'))
+            # only a harness that RETURNS False natively is a violation; an exception escaping the harness itself (e.g. an
+            # internal name it relies on was renamed) is a machinery error, never a VIOLATION
+            fails = (nr.get('ok') is False)
             if nr.get('hang') and meta.get('hang_is_violation'):
                 fails = True
             if nr.get('crash') and meta.get('crash_is_violation'):
